@@ -109,7 +109,7 @@ class VFn:
 
 
 class Layer:
-    __slots__ = ("fields", "locals", "asserts", "env", "outermost", "omit", "comp_envs")
+    __slots__ = ("fields", "locals", "asserts", "env", "outermost", "omit", "omit_span", "comp_envs")
 
     def __init__(self, env, outermost):
         self.fields = {}    # name -> (plus, vis, params, expr, env_override|None)
@@ -117,7 +117,8 @@ class Layer:
         self.asserts = []
         self.env = env
         self.outermost = outermost
-        self.omit = None
+        self.omit = None        # names removed by std.objectRemoveKey ...
+        self.omit_span = 0      # ... from this many layers directly below (the layers of its argument)
         self.comp_envs = None
 
 
@@ -136,7 +137,10 @@ class VObj:
         while i >= 0:
             L = self.layers[i]
             if L.omit is not None and name in L.omit:
-                return None
+                # the removed object behaves as its argument without the field: the argument's own layers are
+                # skipped, layers further left (the object it was added to) are searched as usual
+                i -= L.omit_span + 1
+                continue
             if name in L.fields:
                 return i
             i -= 1
@@ -158,7 +162,8 @@ class VObj:
         while i >= 0:
             L = self.layers[i]
             if L.omit is not None and name in L.omit:
-                break
+                i -= L.omit_span + 1
+                continue
             f = L.fields.get(name)
             if f is not None:
                 found = True
@@ -272,6 +277,7 @@ class Interp:
                 raise JErr("objectRemoveKey types")
             L = Layer({}, False)
             L.omit = {k}
+            L.omit_span = len(o.layers)
             return VObj(o.layers + [L])
 
         def make_array(n, f):
